@@ -146,7 +146,7 @@ func mkCase(kind string, params []string, t *N) (*Case, error) {
 		walk = func(ms []*N) {
 			for _, m := range ms {
 				switch m.Op {
-				case "i", "fh", "s", "z", "t", "f", "o":
+				case "i", "fh", "s", "z", "t", "f", "o", "dvs":
 				case "a":
 					walk(m.Kids)
 				case "dv":
@@ -218,6 +218,8 @@ func errClass(msg string) string {
 	switch {
 	case strings.Contains(msg, "byte in binary list must be bytes"):
 		return "err:byterange"
+	case strings.Contains(msg, "synthetic"):
+		return "err:synthetic"
 	case strings.Contains(msg, "can't be") && strings.Contains(msg, "binary"):
 		return "err:notbinary"
 	case strings.Contains(msg, "outside buffer"):
@@ -415,13 +417,15 @@ type root struct {
 	hex    string
 	format string
 	fields []field
+	synth  []string // paths of synthetic decode values (no input bits)
 }
 
 // fieldsOf lists the decode values of a root that can be binaries, with the range the
 // implementation itself reports through ._start/._len (a code path different from ToBinary).
 func fieldsOf(hexs, format string) []field {
+	// ._bits is null exactly for synthetic values (decode.go, JQValueKey "_bits"): a code path independent of ToBinary
 	prog := `"` + hexs + `" | from_hex | ` + format +
-		` | [.. | select(try (tobytesrange | true) catch false) | [(topath | path_to_expr), ._start, ._len]]`
+		` | [.. | select(._bits != null) | select(try (tobytesrange | true) catch false) | [(topath | path_to_expr), ._start, ._len]]`
 	var vs []any
 	var err error
 	if _, p := hlib.Catch(func() string { vs, err = evalAll(prog); return "" }); p || err != nil || len(vs) != 1 {
@@ -450,6 +454,26 @@ func fieldsOf(hexs, format string) []field {
 	}
 	return fs
 }
+
+// synthOf lists the synthetic decode values of a root: scalars calculated by the decoder, `._bits == null`
+func synthOf(hexs, format string) []string {
+	prog := `"` + hexs + `" | from_hex | ` + format + ` | [.. | select(._bits == null) | (topath | path_to_expr)]`
+	var vs []any
+	var err error
+	if _, p := hlib.Catch(func() string { vs, err = evalAll(prog); return "" }); p || err != nil || len(vs) != 1 {
+		return nil
+	}
+	var ps []string
+	a, _ := vs[0].([]any)
+	for _, e := range a {
+		if p, ok := e.(string); ok && okPath(p) {
+			ps = append(ps, p)
+		}
+	}
+	return ps
+}
+
+func (rt root) synthLeaf(p string) *N { return nd("dvs", []string{rt.hex, rt.format, p}) }
 
 func (rt root) leaf(f field) *N {
 	return nd("dv", []string{rt.hex, strconv.FormatInt(f.start, 10), strconv.FormatInt(f.len, 10), rt.format, f.path})
@@ -602,7 +626,21 @@ func (g *gen) bad() *N {
 
 func (g *gen) dv() *N {
 	rt := g.roots[g.r.Intn(len(g.roots))]
+	if len(rt.synth) > 0 && g.r.Intn(9) == 0 {
+		return rt.synthLeaf(rt.synth[g.r.Intn(len(rt.synth))])
+	}
 	return rt.leaf(rt.fields[g.r.Intn(len(rt.fields))])
+}
+
+// a synthetic decode value (nil when no root has one)
+func (g *gen) dvs() *N {
+	for try := 0; try < 8; try++ {
+		rt := g.roots[g.r.Intn(len(g.roots))]
+		if len(rt.synth) > 0 {
+			return rt.synthLeaf(rt.synth[g.r.Intn(len(rt.synth))])
+		}
+	}
+	return nil
 }
 
 func (g *gen) float() *N {
@@ -961,16 +999,37 @@ func main() {
 					keep = append(keep, f)
 				}
 			}
-			g.roots = append(g.roots, root{hx, "mp3_frame_xing", keep})
+			g.roots = append(g.roots, root{hx, "mp3_frame_xing", keep, synthOf(hx, "mp3_frame_xing")})
 			o.Stat("dv_fields_mp3_frame_xing", len(keep))
+		}
+	}
+	if b, err := os.ReadFile(filepath.Join(repo, "format/mp3/testdata/header-zeros-frames.mp3")); err == nil {
+		// a real decoder with calculated (synthetic) fields: crc_calculated, sample_count, …
+		hx := hexArg(b)
+		if sy := synthOf(hx, "mp3"); len(sy) > 0 {
+			if len(sy) > 6 {
+				sy = sy[:6]
+			}
+			var keep []field
+			for _, f := range fieldsOf(hx, "mp3") {
+				if strings.Contains(f.path, ".header") && len(keep) < 12 {
+					keep = append(keep, f)
+				}
+			}
+			if len(keep) > 0 {
+				g.roots = append(g.roots, root{hx, "mp3", keep, sy})
+				o.Stat("dv_synthetic_values_mp3", len(sy))
+			}
 		}
 	}
 	nSynth := 6
 	for i := 0; i < nSynth; i++ {
 		hx := hexArg(r.Bytes(r.Range(6, 40)))
 		if fs := fieldsOf(hx, "verif_c09"); len(fs) > 0 {
-			g.roots = append(g.roots, root{hx, "verif_c09", fs})
+			sy := synthOf(hx, "verif_c09")
+			g.roots = append(g.roots, root{hx, "verif_c09", fs, sy})
 			o.Stat("dv_fields_synthetic", len(fs))
+			o.Stat("dv_synthetic_values", len(sy))
 		}
 	}
 	// the mp3 root is long (312 hex digits per leaf): give the synthetic roots more weight
@@ -1081,6 +1140,21 @@ func main() {
 		rn.add(must(mkCase("memb", nil, g.computedNum())))
 		rn.add(must(mkCase("cat", nil, g.catArr(3))))
 		rn.add(must(mkCase("cat", nil, g.catArr(1))))
+		if sv := g.dvs(); sv != nil && i%3 == 0 {
+			// the non-convertible class among decode values: standalone, as array member, nested, next to binaries
+			switch r.Intn(4) {
+			case 0:
+				rn.add(must(mkCase("bad", nil, sv)))
+			case 1:
+				rn.add(must(mkCase("bad", nil, arr(lit("1"), arr(sv)))))
+			case 2:
+				a := g.catArr(2)
+				a.Kids[r.Intn(len(a.Kids))] = sv
+				rn.add(must(mkCase("cat", nil, a)))
+			default:
+				rn.add(must(mkCase("ev", nil, nd("tobytesn", []string{g.padCount()}, arr(u("tobits", g.str()), sv)))))
+			}
+		}
 		if i%6 == 0 {
 			bads := []string{"(z)", "(t)", "(f)", "(o)", "(a (z))", "(a (i 1) (t))", "(a (a (o)))", "(a (s 61) (a (f)))"}
 			t, _ := ParseSexpr(bads[r.Intn(len(bads))])
